@@ -1,2 +1,6 @@
 //! The scripted world the real code runs in.
 pub mod alloc;
+pub mod exec;
+pub mod io;
+pub mod svc;
+pub mod conn;
